@@ -339,6 +339,11 @@ class Expr:
                     expr = out
                     break
 
+            if type(expr).simplify_once is not Expr.simplify_once:
+                # The rewrite returned a node with its own simplification
+                # (e.g. a ``Fused`` group, whose children must stay as they are)
+                return expr.simplify_once(dependents=dependents, simplified=simplified)
+
             # Rewrite all of the children
             new_operands = []
             changed = False
